@@ -1,6 +1,6 @@
 (* C19 — the analytical error formulas are the exact expectations.  Axiom-free, generic in the ordered field. *)
 From Coq Require Import Field Ring Setoid Arith Lia Bool List.
-From QV.Core Require Import OF Sums Mat.
+From QV.Core Require Import OF Sums Mat Cplx.
 From QV.Model Require Import Multinomial C19_Expect C19_ErrFormulas.
 From QV.Proofs Require Import C19_Expect.
 Import ListNotations.
@@ -542,6 +542,22 @@ Lemma mse_linear_analytical_ext ty mode on_eq d2 mo nv nr (L L' Sg Sg' : mat) : 
   mse_linear_analytical F ty mode on_eq d2 mo nv nr L Sg = mse_linear_analytical F ty mode on_eq d2 mo nv nr L' Sg'.
 Proof. intros HL HS. unfold C19_ErrFormulas.mse_linear_analytical, C19_ErrFormulas.cov_linear.
   apply mse_analytical_of_cov_ext. now apply conjugate_ext. Qed.
+
+(* ---------- squared error of complex arrays: sum of squared moduli, real, non-negative ---------- *)
+Lemma cvdot_self_re n (d : nat -> cplx F) : re (cvdot_self F n d) = sumn n (fun k => znorm2 (d k)).
+Proof. unfold C19_ErrFormulas.cvdot_self. rewrite re_sumn. apply sumn_ext; intros k _. unfold znorm2. cbn. ring. Qed.
+Lemma cvdot_self_im n (d : nat -> cplx F) : im (cvdot_self F n d) = 0.
+Proof. unfold C19_ErrFormulas.cvdot_self. rewrite im_sumn. apply sumn_zero'; intros k _. cbn. ring. Qed.
+Theorem csqdist_is_sum_sqr_moduli n (x y : nat -> cplx F) :
+  csqdist F n x y = sumn n (fun k => znorm2 (zsub (x k) (y k))).
+Proof. unfold C19_ErrFormulas.csqdist. apply cvdot_self_re. Qed.
+Theorem csqdist_nonneg n (x y : nat -> cplx F) : 0 <= csqdist F n x y.
+Proof. rewrite csqdist_is_sum_sqr_moduli. induction n as [|n IH]; cbn [sumn]; [apply k_refl|].
+  apply add_nonneg; [exact IH|]. unfold znorm2. apply add_nonneg; apply sqr_nonneg. Qed.
+(* on real data (imaginary parts 0) it is the real squared distance *)
+Theorem csqdist_real n (x y : vec) : csqdist F n (fun k => zof (x k)) (fun k => zof (y k)) = sqdist F n x y.
+Proof. rewrite csqdist_is_sum_sqr_moduli. unfold C19_ErrFormulas.sqdist, dot, vsub. apply sumn_ext; intros k _.
+  unfold znorm2. cbn. ring. Qed.
 
 (* ---------- helpers ---------- *)
 Lemma calc_se_app n l1 l2 : calc_se F n (l1 ++ l2) = calc_se F n l1 + calc_se F n l2.
